@@ -347,7 +347,7 @@ def judge_behaviour(ctx, items, keys=None):
         if i == 'PANIC' or len(parts) != 7:
             spec.append('panic-or-garbled-output')
         else:
-            ls, comp, fin, accepts, tmo, gaps, _ = parts
+            ls, comp, fin, accepts, tmo, gaps, pview = parts
             ls = ls.split()
             ntmo = len([c for c in comp.split() if c.endswith(':Timeout')])
             want = ntmo // L if L else 0          # every L-th timeout in a row (silent peer: all in a row) drops the connection
@@ -355,6 +355,12 @@ def judge_behaviour(ctx, items, keys=None):
             nw = len([x for x in ls if x[:2] == 'lW'])
             if nw != want:
                 spec.append(k_spec)
+            # dropped means closed: the scenario holds the task AT every WaitAfterDisconnect notification (the callback is the
+            # gate) and the harness asks the peer what it sees there - the connection the limit dropped must be over for it
+            for pv in pview.split():
+                n, nopen, _mode = pv[1:].split(':')
+                if ls[int(n) - 1][:2] == 'lW' and int(nopen) > 0:
+                    spec.append(k_spec.split('.')[0] + '.connection-still-open-at-the-peer-when-the-drop-after-N-timeouts-is-announced')
             if m is not None:
                 mp = cl.parse(cl.canon(m))
                 mls = [t.split('@')[0] for t in mp['task'] if t[0] == 'l']
@@ -380,6 +386,9 @@ def options_family(ctx):
     e = getattr(ctx, 'gen_report', {}).get('ClientOptions.v', {'ok': False, 'error': 'no such generator'})
     if not ctx.oblige('translator:ClientOptions.v', e['ok'], e.get('error', '')):
         ctx.proof_broken.append(f'translator could not regenerate Gen/ClientOptions.v: {e.get("error")}')
+    e2 = getattr(ctx, 'gen_report', {}).get('ClientScope.v', {'ok': False, 'error': 'no such generator'})
+    if not ctx.oblige('translator:ClientScope.v', e2['ok'], e2.get('error', '')):
+        ctx.proof_broken.append(f'translator could not regenerate Gen/ClientScope.v: {e2.get("error")}')
     OPT_MODEL_OK = bool(e['ok']) and ctx.build_models(['Model.OptionsBuilder'])
     ctx.build_models(['Spec.OptionsSpecShow'])
     if ctx.replay and 'chains' in ctx.replay:
